@@ -45,7 +45,9 @@ Shapes == <<
   NumShape(FALSE, "99999", "99999", FALSE, FALSE, ""), NumShape(FALSE, "12345", "12345", FALSE, FALSE, "px"),
   NumShape(FALSE, "100.25", "100.25", TRUE, FALSE, ""), NumShape(TRUE, "1234.5", "1234.5", TRUE, FALSE, "e"),
   \* a colour without hex digits is black: with an alpha value, with alpha zero (46, 47; a bare "#" is a colour only at the very end of the abbreviation)
-  ColShape("", ".5"), ColShape("", ".0") >>
+  ColShape("", ".5"), ColShape("", ".0"),
+  \* zero written as a float stays bare like any zero (48, 49)
+  NumShape(FALSE, "0.0", "0", TRUE, TRUE, ""), NumShape(FALSE, ".0", "0", TRUE, TRUE, "") >>
 Keys == << [key |-> "p",  prop |-> "padding",     unitless |-> FALSE, takes |-> "num"],
            [key |-> "m",  prop |-> "margin",      unitless |-> FALSE, takes |-> "num"],
            [key |-> "z",  prop |-> "z-index",     unitless |-> TRUE,  takes |-> "num"],
